@@ -10,6 +10,7 @@
   every sequence of operations with arbitrary sharing of operands, and every abuse of the results.
 -/
 import SymmModel.Proofs.HeapLemmas
+import SymmModel.Proofs.HeapRefine
 namespace SymmModel.C14
 open SymmModel.Heap
 
@@ -441,6 +442,232 @@ theorem result_mutation_safe (op : Op) (inplace : Bool) (h : Heap) (operands : L
   intro i _ o ho
   exact I2.step.same ho (fun e => e) (fun e => e)
 
+/-! ## the in-place variant produces, in place, the value the out-of-place variant returns -/
+
+/-- `new = self if inplace else self.copy(); body(new)` -/
+theorem viaCopy_same (s : Script) {h : Heap} {x : ObjId} {a : ArrObj} {bd : Dict} {pd : Option Dict}
+    (w : WFArr h x a bd pd) :
+    ∃ r c, ((viaCopy 1 [] s true).run h [x]).2 = [x] ∧ ((viaCopy 1 [] s false).run h [x]).2 = [x, r] ∧
+      content ((viaCopy 1 [] s true).run h [x]).1 x = some c ∧
+      content ((viaCopy 1 [] s false).run h [x]).1 r = some c ∧
+      ((viaCopy 1 [] s true).run h [x]).1.bufs = ((viaCopy 1 [] s false).run h [x]).1.bufs := by
+  -- in place
+  obtain ⟨hi, ai, bi, pi, ri, wi, ei⟩ := script_refines s 0 .done (env := [x]) (by simp) (by simpa [envGet] using w)
+  -- out of place: the copy has the operand's content …
+  obtain ⟨ac, bc, pc, wc, ec⟩ := copyWithArr_refines {} w
+  rw [modifyP_empty, ← copyArr_eq] at ec
+  rw [← copyArr_eq] at wc
+  -- … and the same body runs on it
+  obtain ⟨ho, ao, bo, po, ro, wo, eo⟩ := script_refines s 1 .done (h := (copyArr h x).1)
+    (env := [x, (copyArr h x).2]) (by simp) (by simpa [envGet] using wc)
+  have hpure : (cont ao bo po, ho.bufs) = (cont ai bi pi, hi.bufs) := by
+    rw [eo, ei]; congr 1
+  refine ⟨(copyArr h x).2, cont ai bi pi, ?_, ?_, ?_, ?_, ?_⟩
+  · simp only [viaCopy, if_true, ri, Prog.run]
+  · simp only [viaCopy, Bool.false_eq_true, if_false, Prog.run, runCmd, envGet, List.getD_cons_zero,
+      List.cons_append, List.nil_append]
+    simpa [Prog.run] using congrArg Prod.snd ro
+  · simp only [viaCopy, if_true, ri, Prog.run]
+    simpa [envGet] using wi.content
+  · simp only [viaCopy, Bool.false_eq_true, if_false, Prog.run, runCmd, envGet, List.getD_cons_zero,
+      List.cons_append, List.nil_append]
+    have := congrArg Prod.fst ro
+    simp only [Prog.run] at this
+    rw [this]
+    have hc := wo.content
+    simp only [envGet, List.getD_cons_succ, List.getD_cons_zero] at hc
+    rw [hc, (Prod.mk.inj hpure).1]
+  · simp only [viaCopy, if_true, Bool.false_eq_true, if_false, Prog.run, runCmd, envGet, List.getD_cons_zero,
+      List.cons_append, List.nil_append]
+    have h1 := congrArg Prod.fst ro
+    have h2 := congrArg Prod.fst ri
+    simp only [Prog.run] at h1 h2
+    rw [h1, h2, (Prod.mk.inj hpure).2]
+
+/-- `m = …; self.modify(**m) if inplace else self.copy_with(**m)`, then `post` in place -/
+theorem viaCopyWith_same (mf : Content → View → Mods) (post : Script) {h : Heap} {x : ObjId} {a : ArrObj}
+    {bd : Dict} {pd : Option Dict} (w : WFArr h x a bd pd) :
+    ∃ r c, ((viaCopyWith 1 [] mf post true).run h [x]).2 = [x] ∧
+      ((viaCopyWith 1 [] mf post false).run h [x]).2 = [x, r] ∧
+      content ((viaCopyWith 1 [] mf post true).run h [x]).1 x = some c ∧
+      content ((viaCopyWith 1 [] mf post false).run h [x]).1 r = some c ∧
+      ((viaCopyWith 1 [] mf post true).run h [x]).1.bufs = ((viaCopyWith 1 [] mf post false).run h [x]).1.bufs := by
+  have w0 : WFArr h (envGet [x] 0) a bd pd := by simpa [envGet] using w
+  have hv : View.at (([x] : Env).map (see h)) 0 = cont a bd pd := view_at (by simp) w0
+  -- in place: `modify`, then `post`
+  obtain ⟨a1, b1, p1, w1, e1⟩ := runAct_refines (.modify (mf (cont a bd pd) [])) w
+  obtain ⟨hi, ai, bi, pi, ri, wi, ei⟩ := script_refines post 0 .done (env := [x]) (by simp)
+    (by simpa [envGet] using w1)
+  -- out of place: `copy_with`, then `post` on the copy
+  obtain ⟨ac, bc, pc, wc, ec⟩ := copyWithArr_refines (mf (cont a bd pd) []) w
+  obtain ⟨ho, ao, bo, po, ro, wo, eo⟩ := script_refines post 1 .done
+    (h := (copyWithArr h x (mf (cont a bd pd) [])).1)
+    (env := [x, (copyWithArr h x (mf (cont a bd pd) [])).2]) (by simp) (by simpa [envGet] using wc)
+  have hpure : (cont ao bo po, ho.bufs) = (cont ai bi pi, hi.bufs) := by
+    rw [eo, ei, ec, e1]; rfl
+  have runIn : (viaCopyWith 1 [] mf post true).run h [x] = (hi, [x]) := by
+    simp only [viaCopyWith, Prog.run, List.map_nil, hv, if_true, runCmd, envGet, List.getD_cons_zero]
+    simpa [Prog.run, envGet] using ri
+  have runOut : (viaCopyWith 1 [] mf post false).run h [x] =
+      (ho, [x, (copyWithArr h x (mf (cont a bd pd) [])).2]) := by
+    simp only [viaCopyWith, Prog.run, List.map_nil, hv, Bool.false_eq_true, if_false, runCmd, envGet,
+      List.getD_cons_zero, List.cons_append, List.nil_append]
+    simpa [Prog.run] using ro
+  refine ⟨(copyWithArr h x (mf (cont a bd pd) [])).2, cont ai bi pi, ?_, ?_, ?_, ?_, ?_⟩
+  · rw [runIn]
+  · rw [runOut]
+  · rw [runIn]; simpa [envGet] using wi.content
+  · rw [runOut]
+    have hc := wo.content
+    simp only [envGet, List.getD_cons_succ, List.getD_cons_zero] at hc
+    rw [hc, (Prod.mk.inj hpure).1]
+  · rw [runIn, runOut, (Prod.mk.inj hpure).2]
+
+/-- the same with a second, read-only operand `v` that shares no object with `x`
+    (`x.multiply_diagonal(v, axis, inplace)`) -/
+theorem viaCopy_same_other (s : Script) {h : Heap} {x v : ObjId} {a av : ArrObj} {bd bv : Dict}
+    {pd pv : Option Dict} (wx : WFArr h x a bd pd) (wv : WFArr h v av bv pv) (hne : v ≠ x)
+    (hb : av.blocks ∉ dictsOf h x) (hp : ∀ p, av.phases = some p → p ∉ dictsOf h x) :
+    ∃ r c, ((viaCopy 2 [1] s true).run h [x, v]).2 = [x, v] ∧
+      ((viaCopy 2 [1] s false).run h [x, v]).2 = [x, v, r] ∧
+      content ((viaCopy 2 [1] s true).run h [x, v]).1 x = some c ∧
+      content ((viaCopy 2 [1] s false).run h [x, v]).1 r = some c ∧
+      ((viaCopy 2 [1] s true).run h [x, v]).1.bufs = ((viaCopy 2 [1] s false).run h [x, v]).1.bufs := by
+  have hvb := get?_lt wv.blk
+  have hvp : ∀ p, av.phases = some p → p < h.size := fun p hq =>
+    get?_lt (wv.ph p hq).choose_spec.2.1
+  -- in place
+  obtain ⟨hi, ai, bi, pi, ri, wi, ei⟩ := script_refines_others s 0 [1] .done (n0 := h.size)
+    (D0 := dictsOf h x) (env := [x, v]) (by simp) (by simpa [envGet] using wx)
+    (by
+      intro j hj
+      simp only [List.mem_singleton] at hj
+      subst hj
+      exact ⟨by simp, av, bv, pv, by simpa [envGet] using wv, by simpa [envGet] using hne, hvb,
+        by simpa [envGet] using hb, fun p hq => ⟨hvp p hq, by simpa [envGet] using hp p hq⟩⟩)
+    (fun d hd => Or.inl (by simpa [envGet] using hd)) (Nat.le_refl _)
+  -- out of place
+  obtain ⟨ac, bc, pc, wc, ec⟩ := copyWithArr_refines {} wx
+  rw [modifyP_empty, ← copyArr_eq] at ec
+  rw [← copyArr_eq] at wc
+  have cs := copyArr_spec h x
+  have wv1 : WFArr (copyArr h x).1 v av bv pv := wf_ext cs.1 wv
+  have hvlt : v < h.size := get?_lt wv.arr
+  obtain ⟨ho, ao, bo, po, ro, wo, eo⟩ := script_refines_others s 2 [1] .done (n0 := h.size) (D0 := [])
+    (h := (copyArr h x).1) (env := [x, v, (copyArr h x).2]) (by simp) (by simpa [envGet] using wc)
+    (by
+      intro j hj
+      simp only [List.mem_singleton] at hj
+      subst hj
+      refine ⟨by simp, av, bv, pv, by simpa [envGet] using wv1, ?_, hvb, by simp, fun p hq => ⟨hvp p hq, by simp⟩⟩
+      simp only [envGet, List.getD_cons_succ, List.getD_cons_zero]
+      exact Nat.ne_of_lt (Nat.lt_of_lt_of_le hvlt cs.2.ge))
+    (fun d hd => Or.inr (cs.2.dicts d (by simpa [envGet] using hd))) cs.1.size
+  have hview : othersView (copyArr h x).1 [x, v, (copyArr h x).2] [1] = othersView h [x, v] [1] := by
+    simp only [othersView, List.map_cons, List.map_nil, List.getD_cons_succ, List.getD_cons_zero]
+    rw [see_arr wv1, see_arr wv]
+  have hpure : (cont ao bo po, ho.bufs) = (cont ai bi pi, hi.bufs) := by
+    rw [eo, ei, hview]; congr 1
+  have runIn : (viaCopy 2 [1] s true).run h [x, v] = (hi, [x, v]) := by
+    simp only [viaCopy, if_true]; simpa [Prog.run] using ri
+  have runOut : (viaCopy 2 [1] s false).run h [x, v] = (ho, [x, v, (copyArr h x).2]) := by
+    simp only [viaCopy, Bool.false_eq_true, if_false, Prog.run, runCmd, envGet, List.getD_cons_zero,
+      List.cons_append, List.nil_append]
+    simpa [Prog.run] using ro
+  refine ⟨(copyArr h x).2, cont ai bi pi, ?_, ?_, ?_, ?_, ?_⟩
+  · rw [runIn]
+  · rw [runOut]
+  · rw [runIn]; simpa [envGet] using wi.content
+  · rw [runOut]
+    have hc := wo.content
+    simp only [envGet, List.getD_cons_succ, List.getD_cons_zero] at hc
+    rw [hc, (Prod.mk.inj hpure).1]
+  · rw [runIn, runOut, (Prod.mk.inj hpure).2]
+
+/-- `inplace_same_value` for `multiply_diagonal` -/
+theorem inplace_same_value_multiply_diagonal (chargeOf : Key → Key) {h : Heap} {x v : ObjId} {a av : ArrObj}
+    {bd bv : Dict} {pd pv : Option Dict} (wx : WFArr h x a bd pd) (wv : WFArr h v av bv pv) (hne : v ≠ x)
+    (hb : av.blocks ∉ dictsOf h x) (hp : ∀ p, av.phases = some p → p ∉ dictsOf h x) :
+    ∃ r c, ((Op.multiplyDiagonal chargeOf).run true h [x, v]).2 = [x] ∧
+      ((Op.multiplyDiagonal chargeOf).run false h [x, v]).2 = [r] ∧
+      content ((Op.multiplyDiagonal chargeOf).run true h [x, v]).1 x = some c ∧
+      content ((Op.multiplyDiagonal chargeOf).run false h [x, v]).1 r = some c ∧
+      ((Op.multiplyDiagonal chargeOf).run true h [x, v]).1.bufs =
+        ((Op.multiplyDiagonal chargeOf).run false h [x, v]).1.bufs := by
+  obtain ⟨r, c, e1, e2, c1, c2, hbf⟩ := viaCopy_same_other (S.multiplyDiagonal chargeOf) wx wv hne hb hp
+  refine ⟨r, c, ?_, ?_, c1, c2, hbf⟩
+  · simp only [Op.run, Op.arity, Op.results, Op.targets, Op.alwaysInplace, Op.neverInplace, Op.prog]
+    simp [e1, envGet]
+  · simp only [Op.run, Op.arity, Op.results, Op.targets, Op.alwaysInplace, Op.neverInplace, Op.prog]
+    simp [e2, envGet]
+
+/-- the operations with an `inplace` switch that act on one array -/
+def unaryFlagged : Op → Bool
+  | .scalarOp _ | .unaryOpA _ | .unaryOpF _ | .conjA _ _ | .transposeA _ _ | .daggerA _ _ _ _ | .squeeze _ _
+  | .expandDims _ | .fuseCore _ | .fuseA _ _ | .unfuseA _ | .unfuseAll _ | .reshape _ | .syncCharges _
+  | .phaseFlip _ _ | .phaseTranspose _ | .phaseSector _ | .phaseGlobal | .phaseSync | .transposeF _ _ _ _
+  | .conjF _ _ _ _ _ _ | .daggerF _ _ _ _ _ _ | .fuseF _ _ | .unfuseF _ => true
+  | _ => false
+
+theorem op_shape (op : Op) (hop : unaryFlagged op = true) :
+    (∃ s, ∀ ip, op.prog ip = viaCopy 1 [] s ip) ∨
+    (∃ mf post, ∀ ip, op.prog ip = viaCopyWith 1 [] mf post ip) := by
+  cases op with
+  | fuseA core es =>
+    cases core with
+    | none => exact Or.inl ⟨_, fun _ => rfl⟩
+    | some f => exact Or.inr ⟨fun c _ => S.fuseMods f.plan f.fi c, expandsS es, fun _ => rfl⟩
+  | fuseCore f => exact Or.inr ⟨fun c _ => S.fuseMods f.plan f.fi c, .nil, fun _ => rfl⟩
+  | unfuseA u => exact Or.inr ⟨fun c _ => S.unfuseMods u.split u.fi c, .nil, fun _ => rfl⟩
+  | syncCharges fi => exact Or.inr ⟨fun c _ => S.syncMods fi c, .nil, fun _ => rfl⟩
+  | scalarOp _ => exact Or.inl ⟨_, fun _ => rfl⟩
+  | unaryOpA _ => exact Or.inl ⟨_, fun _ => rfl⟩
+  | unaryOpF _ => exact Or.inl ⟨_, fun _ => rfl⟩
+  | conjA _ _ => exact Or.inl ⟨_, fun _ => rfl⟩
+  | transposeA _ _ => exact Or.inl ⟨_, fun _ => rfl⟩
+  | daggerA _ _ _ _ => exact Or.inl ⟨_, fun _ => rfl⟩
+  | squeeze _ _ => exact Or.inl ⟨_, fun _ => rfl⟩
+  | expandDims _ => exact Or.inl ⟨_, fun _ => rfl⟩
+  | unfuseAll _ => exact Or.inl ⟨_, fun _ => rfl⟩
+  | reshape _ => exact Or.inl ⟨_, fun _ => rfl⟩
+  | phaseFlip _ _ => exact Or.inl ⟨_, fun _ => rfl⟩
+  | phaseTranspose _ => exact Or.inl ⟨_, fun _ => rfl⟩
+  | phaseSector _ => exact Or.inl ⟨_, fun _ => rfl⟩
+  | phaseGlobal => exact Or.inl ⟨_, fun _ => rfl⟩
+  | phaseSync => exact Or.inl ⟨_, fun _ => rfl⟩
+  | transposeF _ _ _ _ => exact Or.inl ⟨_, fun _ => rfl⟩
+  | conjF _ _ _ _ _ _ => exact Or.inl ⟨_, fun _ => rfl⟩
+  | daggerF _ _ _ _ _ _ => exact Or.inl ⟨_, fun _ => rfl⟩
+  | fuseF _ _ => exact Or.inl ⟨_, fun _ => rfl⟩
+  | unfuseF _ => exact Or.inl ⟨_, fun _ => rfl⟩
+  | _ => simp [unaryFlagged] at hop
+
+theorem unaryFlagged_results (op : Op) (hop : unaryFlagged op = true) :
+    op.arity = 1 ∧ op.results true = [0] ∧ op.results false = [1] := by
+  cases op <;> first
+    | (simp [unaryFlagged] at hop; done)
+    | simp [Op.arity, Op.results, Op.targets, Op.alwaysInplace, Op.neverInplace]
+
+/-- **`inplace_same_value`**: for every operation with an `inplace` switch acting on one well-formed
+    array object, the in-place call returns the operand itself, and that object ends with exactly
+    the abstract content (index tables, charge, ordered block dict, ordered sign dict, labels) of the
+    object the out-of-place call returns from the same heap; both calls create the same buffers
+    (same kernels on the same arguments, in the same order), so equal buffer ids mean equal data -/
+theorem inplace_same_value (op : Op) (hop : unaryFlagged op = true) {h : Heap} {x : ObjId} {a : ArrObj}
+    {bd : Dict} {pd : Option Dict} (w : WFArr h x a bd pd) :
+    ∃ r c, (op.run true h [x]).2 = [x] ∧ (op.run false h [x]).2 = [r] ∧
+      content (op.run true h [x]).1 x = some c ∧ content (op.run false h [x]).1 r = some c ∧
+      (op.run true h [x]).1.bufs = (op.run false h [x]).1.bufs := by
+  obtain ⟨har, hrt, hrf⟩ := unaryFlagged_results op hop
+  simp only [Op.run, har, hrt, hrf, List.take_succ_cons, List.take_zero, List.map_cons, List.map_nil]
+  rcases op_shape op hop with ⟨s, hs⟩ | ⟨mf, post, hs⟩
+  · obtain ⟨r, c, e1, e2, c1, c2, hb⟩ := viaCopy_same s w
+    rw [hs true, hs false]
+    exact ⟨r, c, by rw [e1]; rfl, by rw [e2]; rfl, c1, c2, hb⟩
+  · obtain ⟨r, c, e1, e2, c1, c2, hb⟩ := viaCopyWith_same mf post w
+    rw [hs true, hs false]
+    exact ⟨r, c, by rw [e1]; rfl, by rw [e2]; rfl, c1, c2, hb⟩
+
 /-! ## non-vacuity, and what the theorems exclude -/
 
 /-- a fermionic array `x = 2` with two blocks and one pending sign -/
@@ -467,6 +694,27 @@ example : CallsOwned (List.replicate [2].length false ++ List.replicate (opT.res
     [⟨.phaseGlobal, true, [1]⟩, ⟨.scalarOp tMul, true, [1]⟩, ⟨.modify { indices := some 0 }, false, [1]⟩,
      ⟨.binaryF .outer, false, [1, 0]⟩, ⟨.phaseSync, true, [2]⟩] := by
   simp [CallsOwned, Op.arity, Op.targets, Op.alwaysInplace, Op.neverInplace, Op.results, opT]
+
+-- the well-formedness hypothesis of `inplace_same_value` holds for `x`, and the theorem applies to `opT`:
+example : WFArr h0 2 { indices := 5, charge := 1, blocks := 0, phases := some 1, oddpos := 3 }
+    [(0, 0), (1, 1)] (some [(1, -1)]) :=
+  ⟨rfl, rfl, fun p hp => by cases hp; exact ⟨_, rfl, rfl, by decide⟩, fun hn => by cases hn⟩
+example : unaryFlagged opT = true := rfl
+
+/- `inplace_same_value` is proved for the 24 operations of `unaryFlagged` (one array operand).
+   NOT proved (full statement kept here): the same conclusion for the in-place forms with a second,
+   read-only operand other than `multiply_diagonal` (proved separately above) —
+   `__iadd__/__isub__/__imul__/__itruediv__` with a block array (`binaryA`, `binaryF`) — under the
+   hypothesis that the second operand shares no object with the first, and for
+   `drop_misaligned_sectors(inplace=True)` (two targets):
+     theorem inplace_same_value_binary (op) (h) (x y) (wx : WFArr h x …) (wy : WFArr h y …)
+       (apart : ∀ i ∈ reachable h [y], i ∉ reachable h [x]) :
+       ∃ r c, (op.run true h [x, y]).2 = [x] ∧ (op.run false h [x, y]).2 = [r] ∧
+         content (op.run true h [x, y]).1 x = some c ∧ content (op.run false h [x, y]).1 r = some c
+   Missing: a content-level meaning of `binaryK` (interleaved effects on the target and on the temporary
+   dict `other_blocks`) and of `syncedK`; `script_refines_others` already covers the stability of the
+   other operand.  The harness compares these
+   in-place forms with the out-of-place results on the real code instead. -/
 
 /-- sharing a dict is rejected by the discipline, whatever follows … -/
 theorem share_not_safe (Q : List Bool → Prop) (o : List Bool) (t s : Nat) (k : Prog) :
